@@ -5,6 +5,7 @@ package main
 import (
 	"fmt"
 	"go/types"
+	"strings"
 
 	"golang.org/x/tools/go/ssa"
 )
@@ -18,6 +19,11 @@ func (e *Encoder) sitesFor(selector string) []SiteSpec {
 		if s.Selector == selector {
 			out = append(out, s)
 			e.siteHit[selector] = true
+		}
+		// `kind what#*`: every site of that kind in the function (a table written out as a literal)
+		if strings.HasSuffix(s.Selector, "#*") && strings.HasPrefix(selector, strings.TrimSuffix(s.Selector, "*")) {
+			out = append(out, s)
+			e.siteHit[s.Selector] = true
 		}
 	}
 	return out
